@@ -2479,6 +2479,14 @@ impl SignedDurationRound {
                 plural = self.smallest.plural(),
             ));
         }
+        if self.increment <= 0 {
+            return Err(err!(
+                "rounding increment {increment} for {unit} must be \
+                 greater than zero",
+                increment = self.increment,
+                unit = self.smallest.plural(),
+            ));
+        }
         let nanos = t::NoUnits128::new_unchecked(dur.as_nanos());
         let increment = t::NoUnits::new_unchecked(self.increment);
         let rounded = self.mode.round_by_unit_in_nanoseconds(
